@@ -80,12 +80,14 @@ theorem entries_run (now : Time) (tid : Nat) (loc : Loc) (C : Result → Report)
     simp only [List.map_cons, run, apply_entryEvent]
     have h1 : checkLocation loc (C { x with steps := x.steps ++ [{ cur with entries := done }] }) = .ok () := by
       rw [checkLocation, hC]
-    have h2 := hC (fun y => .ok { y with steps := modifyNth (addEntryToStep (entryImage now e)) x.steps.length y.steps })
+    have h2 := hC (addEntryAt x.steps.length (entryImage now e))
       { x with steps := x.steps ++ [{ cur with entries := done }] }
-    simp only [addEntry, h1, List.lookup, beq_self_eq_true, truthyTime, h2, modifyNth_append_last, addEntryToStep]
+    have hval : addEntryAt x.steps.length (entryImage now e) { x with steps := x.steps ++ [{ cur with entries := done }] }
+        = .ok { x with steps := x.steps ++ [{ cur with entries := done ++ [entryImage now e] }] } := by
+      simp [addEntryAt, hcur, truthyTime, modifyNth_append_last, addEntryToStep]
+    rw [hval] at h2
+    simp only [addEntry, h1, List.lookup, beq_self_eq_true, h2]
     simpa [List.append_assoc] using ih
-
-
 
 theorem endEvent_cases (t : Option Time) (mk : Time → Event) :
     (keepEnd t = none ∧ endEvent t mk = []) ∨ (∃ e, e ≠ 0 ∧ keepEnd t = some e ∧ endEvent t mk = [mk e]) := by
